@@ -17,8 +17,13 @@ import numpy as np
 from sim import threads
 from sim.core import EventLog, digest_of, fbits, violation
 
+import os
+
 PROPERTY = "C03"
 ISOLATE = True
+# JIT sample of the thorough tier (not simulation): the kernels are really compiled, so they cannot be replaced by the
+# rewritten python kernels; the schedule of numba's threads is then nobody's decision and only the route oracle is exercised
+REAL_JIT = os.environ.get("NUMBA_DISABLE_JIT") == "0"
 TIERS = {
     "quick": {"runs": 5000, "budget_s": 100, "timeout_s": 60, "chunk": 16, "det_sample": 48, "det_runs": 300},
     "thorough": {"runs": 120000, "budget_s": 1500, "timeout_s": 120, "chunk": 16, "det_sample": 64, "det_runs": 1000},
@@ -228,7 +233,8 @@ def execute(plan):
         if viol is None:
             viol = violation(klass, detail, key)
 
-    threads.install()
+    if not REAL_JIT:
+        threads.install()
     pde.config["backend.numba.multithreading"] = "always"
     pde.config["backend.numba.multithreading_threshold"] = int(plan["threshold"])
     gspec = plan["grid"]
@@ -625,9 +631,16 @@ def post_batch(tier, seed, agg):
                           "violation": violation("C03/jit-parallel-differs-from-serial",
                                                  f"compiled parallel kernel {r['case']} differs from the compiled serial kernel by {r['maxdiff']:.3e} "
                                                  f"with real numba threads {r['threads']}", key="C03/jit/" + r["case"])})
-    return {"coverage": {"jit_confirmation": {"note": "real compiled parallel=True kernels, numba threads 1/2/5/16, 3 repetitions each, "
+    # the route oracle (not the thread simulation) once more on the first plans with real compilation: compiled ghost-cell
+    # setters, overloads and numba's own parfor lowering, which python mode cannot reach
+    from sim.core import jit_sample
+
+    js = jit_sample(sys.modules[__name__], seed, runs=int(os.environ.get("VERIF_JIT_RUNS", "32")), budget_s=1200, timeout_s=1800)
+    viols.extend(js.get("violations", []))
+    return {"coverage": {**js.get("coverage", {}),
+                         "jit_confirmation": {"note": "real compiled parallel=True kernels, numba threads 1/2/5/16, 3 repetitions each, "
                                               "vs compiled serial kernel at rtol 1e-12; schedule NOT controlled (observation, not simulation)",
                                               "kernels": len(results), "all_equal": all(r["ok"] for r in results),
                                               "max_difference": max(r["maxdiff"] for r in results),
                                               "cases": [r["case"] for r in results]}},
-            "violations": viols}
+            "violations": viols, "harness_errors": js.get("harness_errors", [])}
